@@ -87,6 +87,11 @@ void Timer::Skip(u64 ticks) {
     if (pause || count_mode == CountMode::EventCount)
         return;
 
+    // Skipping zero ticks must leave the timer untouched. The reload formula below is only
+    // valid for ticks >= 1 (it would yield start + 1), and UpdateMMIO must not run without a tick.
+    if (ticks == 0)
+        return;
+
     if (counter == 0) {
         u32 reset;
         if (count_mode == CountMode::AutoRestart) {
